@@ -432,6 +432,23 @@ func (c *Ctx) resolve(rule, key string, pos token.Pos, f *ssa.Function, b *ssa.B
 			if strings.HasPrefix(k2, fnName(f)+" ") {
 				k2 = fnName(caller) + strings.TrimPrefix(k2, fnName(f))
 				ex, ok = excLookupLoose(env.cfg.exc, k2)
+				if !ok {
+					// the helper's parameter names are its author's choice (a parameter called like a field of the
+					// package is still a parameter): compare with them anonymised
+					k3 := k2
+					for _, prm := range f.Params {
+						if prm.Name() == "" {
+							continue
+						}
+						re := regexp.MustCompile(`(^|[^.\w])` + regexp.QuoteMeta(prm.Name()) + `($|[^\w(])`)
+						for i := 0; i < 4; i++ {
+							k3 = re.ReplaceAllString(k3, "${1}_${2}")
+						}
+					}
+					if k3 != k2 {
+						ex, ok = excLookupLoose(env.cfg.exc, k3)
+					}
+				}
 				if ok {
 					f, b = caller, nil
 				}
